@@ -445,3 +445,42 @@ def mask_of_cl(cl: np.ndarray) -> int:
         if cl[s]:
             m |= 1 << i
     return m
+
+
+# ---------------------------------------------------------------------------
+# pixel / ascii oracle (C10, C17) — written from the property statement
+# ---------------------------------------------------------------------------
+
+WALL = (0, 0, 0)
+OPEN = (255, 255, 255)
+START = (0, 255, 0)
+END = (255, 0, 0)
+PATH = (0, 0, 255)
+ASCII_OF = {WALL: "#", OPEN: " ", START: "S", END: "E", PATH: "X"}
+
+
+def pixels(cl, start=None, end=None, solution=None, show_endpoints=True, show_solution=True) -> np.ndarray:
+    """expected (2R+1)x(2C+1)x3 image.  start/end None for an untargeted maze, solution None unless solved."""
+    R, C = cl.shape[1:]
+    img = np.zeros((2 * R + 1, 2 * C + 1, 3), dtype=np.uint8)
+    for r in range(R):
+        for c in range(C):
+            img[2 * r + 1, 2 * c + 1] = OPEN
+            if r + 1 < R and cl[0, r, c]:
+                img[2 * r + 2, 2 * c + 1] = OPEN
+            if c + 1 < C and cl[1, r, c]:
+                img[2 * r + 1, 2 * c + 2] = OPEN
+    if solution is not None and show_solution:
+        sol = [tuple(int(x) for x in p) for p in solution]
+        for p in sol:
+            img[2 * p[0] + 1, 2 * p[1] + 1] = PATH
+        for a, b in zip(sol[:-1], sol[1:]):
+            img[a[0] + b[0] + 1, a[1] + b[1] + 1] = PATH
+    if start is not None and show_endpoints:
+        img[2 * int(start[0]) + 1, 2 * int(start[1]) + 1] = START
+        img[2 * int(end[0]) + 1, 2 * int(end[1]) + 1] = END
+    return img
+
+
+def ascii_of(img: np.ndarray) -> str:
+    return "\n".join("".join(ASCII_OF.get(tuple(int(v) for v in px), "?") for px in row) for row in img)
